@@ -312,7 +312,7 @@ def run_shard(ctx):
                         ctx.violation('label-error-after-solving', f'{where}={lab!r} raised KeyError after solving something: log {A.__dict__["v_log"][:3]}', case)
             # ---- single fault at every period, every policy ---------------------------------
             for q in range(n):
-                for fault in ('exc', 'nan', 'pinf', 'warn', 'nonconv', 'after-exc'):
+                for fault in ('exc', 'excse', 'nan', 'pinf', 'warn', 'nonconv', 'after-exc'):
                     for errors in ('raise', 'skip', 'ignore', 'replace'):
                         for failures in ('raise', 'ignore'):
                             if ctx.quick and rng.random() < 0.5:
@@ -347,7 +347,7 @@ def fault_case(ctx, Model, spec, scripts, opts, q, fault, case):
         call(clean.solve_t, p, **opts)
     sa, sc = snapshot(A), snapshot(clean)
     errors, failures = opts['errors'], opts['failures']
-    raises = (fault in ('exc', 'after-exc')) or (fault in ('nan', 'pinf', 'warn') and errors == 'raise') or (fault == 'nonconv' and failures == 'raise')
+    raises = (fault in ('exc', 'excse', 'after-exc')) or (fault in ('nan', 'pinf', 'warn') and errors == 'raise') or (fault == 'nonconv' and failures == 'raise')
     st = ''.join(sa['status'])
     # earlier periods complete and equal to the single-period twin
     for name in sa:
@@ -371,7 +371,8 @@ def fault_case(ctx, Model, spec, scripts, opts, q, fault, case):
                 if not (x == y or (isinstance(x, float) and math.isnan(x) and math.isnan(y))):
                     ctx.violation('later-period-touched', f'fault {fault} at period {q} raised, but {name}[{p}] changed from {y!r} to {x!r}', case)
                     return
-        want_status = {'exc': 'E' if errors == 'raise' else None, 'nonconv': 'F', 'after-exc': None}.get(fault, 'E')
+        # (an exception of the solver's own class raised inside a pass - by a helper model solved there, say - is an exception inside a pass)
+        want_status = {'exc': 'E' if errors == 'raise' else None, 'excse': 'E' if errors == 'raise' else None, 'nonconv': 'F', 'after-exc': None}.get(fault, 'E')
         if fault == 'after-exc' and st[q] == '.' and (sa['status'][q], sa['iterations'][q]) != (pristine['status'][q], pristine['iterations'][q]):
             # '.' is what a period carries when its solve returned True; this one raised from its post-solution hook
             ctx.violation('failing-period-status', f'the post-solution hook of period {q} raised, yet the period is newly recorded as solved (status ".", iterations {sa["iterations"][q]})', case)
